@@ -73,7 +73,7 @@ theorem readMgh_steps (bs : Bytes) (version : Nat) (r0 : Bytes) (x y z f : Nat) 
     (h8 : rdU32s 5 (padTo ftrItemsize (bs.drop (footerOffset bpv ⟨x, y, z, f⟩))) = .ok (ftr, rf))
     (hv : version = 1)
     (h9 : rdWs bpv (Dims.prod ⟨x, y, z, f⟩) (bs.drop dataOffset) = .ok data) :
-    readMgh bs = .ok (⟨⟨x, y, z, f⟩, code, delta, ftr⟩, data) := by
+    readMgh bs = .ok (⟨⟨x, y, z, f⟩, code, delta, ftr⟩, (bs.drop 42).take 48, data) := by
   simp only [readMgh, hl, if_false, h0, h1, h2, h3, h4, hz, h5, h6, hg, h7, h8, hv, ne_eq, not_true_eq_false, h9]
 
 theorem padTo_exact (n : Nat) (bs : Bytes) (h : bs.length = n) : padTo n bs = bs := by
@@ -90,7 +90,7 @@ theorem mgh_file_roundtrip_aux (x y z f code : Nat) (delta ftr : List Nat) (ras 
     (hfl : ftr.length = 5) (hfv : ∀ v ∈ ftr, v < 4294967296)
     (hras : ras.length = 48)
     (hdata : data.length = Dims.prod ⟨x, y, z, f⟩) (hdat : ∀ v ∈ data, v < 256 ^ bpv) :
-    readMgh (writeMgh ⟨⟨x, y, z, f⟩, code, delta, ftr⟩ ras bpv data) = .ok (⟨⟨x, y, z, f⟩, code, delta, ftr⟩, data)
+    readMgh (writeMgh ⟨⟨x, y, z, f⟩, code, delta, ftr⟩ ras bpv data) = .ok (⟨⟨x, y, z, f⟩, code, delta, ftr⟩, ras, data)
     ∧ (writeMgh ⟨⟨x, y, z, f⟩, code, delta, ftr⟩ ras bpv data).length
         = footerOffset bpv ⟨x, y, z, f⟩ + ftrItemsize := by
   have hw := bytesPerVox_width code bpv hb
@@ -119,6 +119,10 @@ theorem mgh_file_roundtrip_aux (x y z f code : Nat) (delta ftr : List Nat) (ras 
       = ((encU32 1 ++ (encU32 x ++ (encU32 y ++ (encU32 z ++ (encU32 f ++ (encU32 code ++ (encU32 0 ++ [0, 1]))))))) ++
           (encU32s delta ++ (ras ++ (zeros 194 ++ encWs bpv data)))) ++ encU32s ftr := by
     rw [← hT2]; simp only [List.append_assoc]
+  have e42 : (encU32 1 ++ (encU32 x ++ (encU32 y ++ (encU32 z ++ (encU32 f ++ (encU32 code ++ (encU32 0 ++ [0, 1]))))))) ++ T2
+      = ((encU32 1 ++ (encU32 x ++ (encU32 y ++ (encU32 z ++ (encU32 f ++ (encU32 code ++ (encU32 0 ++ [0, 1]))))))) ++
+          encU32s delta) ++ (ras ++ (zeros 194 ++ (encWs bpv data ++ encU32s ftr))) := by
+    rw [← hT2]; simp only [List.append_assoc]
   have l30 : (encU32 1 ++ (encU32 x ++ (encU32 y ++ (encU32 z ++ (encU32 f ++ (encU32 code ++ (encU32 0 ++ [0, 1]))))))).length = 30 := rfl
   have l28 : (encU32 1 ++ (encU32 x ++ (encU32 y ++ (encU32 z ++ (encU32 f ++ (encU32 code ++ encU32 0)))))).length = 28 := rfl
   have l284 : ((encU32 1 ++ (encU32 x ++ (encU32 y ++ (encU32 z ++ (encU32 f ++ (encU32 code ++ (encU32 0 ++ [0, 1]))))))) ++
@@ -146,8 +150,14 @@ theorem mgh_file_roundtrip_aux (x y z f code : Nat) (delta ftr : List Nat) (ras 
   have g4 : rdWs bpv (Dims.prod ⟨x, y, z, f⟩) (file.drop dataOffset) = .ok data := by
     rw [e30, e284, drop_append_len _ _ _ l284, ← hdata]
     exact rdWs_enc bpv hw data _ hdat
+  have l42 : ((encU32 1 ++ (encU32 x ++ (encU32 y ++ (encU32 z ++ (encU32 f ++ (encU32 code ++ (encU32 0 ++ [0, 1]))))))) ++
+          encU32s delta).length = 42 := by
+    simp only [List.length_append, l30, encU32s_length, hdl]
+  have g5 : (file.drop 42).take 48 = ras := by
+    rw [e30, e42, drop_append_len _ _ 42 l42, take_append_len _ _ 48 hras]
   constructor
   · subst hF
+    rw [← g5]
     exact readMgh_steps _ 1 _ x y z f _ _ _ _ code _ bpv delta _ ftr [] data g0
       (rdU32_enc 1 _ (by decide)) (rdU32_enc x _ hx) (rdU32_enc y _ hy) (rdU32_enc z _ hz) (rdU32_enc f _ hf) hnz
       (rdU32_enc code _ hcode) hb g1 g2 g3 rfl g4
@@ -185,5 +195,196 @@ theorem setFtr_dims (h : MghHdr) (sets : List (Nat × Nat)) : (setFtr h sets).di
 def tiles : Nat → List (String × Nat × Nat × Nat) → Nat → Bool
   | off, [], total => off == total
   | off, (_, o, sz, cnt) :: t, total => o == off && tiles (off + sz * cnt) t total
+
+/-! ### save → load, end to end -/
+
+/-- the footer a saved image must carry: TR first, then the assignments in order -/
+def ftrSpec (tr : Nat) (sets : List (Nat × Nat)) : List Nat :=
+  sets.foldl (fun f s => f.set s.1 s.2) [tr, 0, 0, 0, 0]
+
+theorem setFtr_spec (h : MghHdr) (sets : List (Nat × Nat)) :
+    setFtr h sets = { h with ftr := sets.foldl (fun f s => f.set s.1 s.2) h.ftr } := by
+  unfold setFtr
+  induction sets generalizing h with
+  | nil => rfl
+  | cons a t ih => simp only [List.foldl_cons]; rw [ih]
+
+theorem foldl_set_inv (sets : List (Nat × Nat)) (f : List Nat) (n : Nat) (hl : f.length = n)
+    (hf : ∀ v ∈ f, v < 4294967296) (hs : ∀ p ∈ sets, p.2 < 4294967296) :
+    (sets.foldl (fun f s => f.set s.1 s.2) f).length = n ∧
+      ∀ v ∈ sets.foldl (fun f s => f.set s.1 s.2) f, v < 4294967296 := by
+  induction sets generalizing f with
+  | nil => exact ⟨hl, hf⟩
+  | cons a t ih =>
+    simp only [List.foldl_cons]
+    apply ih
+    · simp [hl]
+    · intro v hv
+      rcases List.mem_or_eq_of_mem_set hv with h | h
+      · exact hf v h
+      · rw [h]; exact hs a (List.mem_cons_self ..)
+    · exact fun p hp => hs p (List.mem_cons_of_mem _ hp)
+
+theorem imgShape_eq (s : List Nat) : imgShape s = s ++ List.replicate (3 - s.length) 1 := by
+  unfold imgShape padShape3
+  split
+  · rfl
+  · have : 3 - s.length = 0 := by omega
+    simp [this]
+
+theorem setDataShape_toList (sh : List Nat) (d : Dims) (h : setDataShape sh = .ok d) :
+    d.toList = sh ++ List.replicate (4 - sh.length) 1 := by
+  match sh, h with
+  | [], h => cases h; rfl
+  | [a], h => cases h; rfl
+  | [a, b], h => cases h; rfl
+  | [a, b, c], h => cases h; rfl
+  | [a, b, c, e], h => cases h; rfl
+  | _ :: _ :: _ :: _ :: _ :: _, h => simp [setDataShape] at h
+
+theorem prod_append_ones (l : List Nat) (k : Nat) : prod (l ++ List.replicate k 1) = prod l := by
+  induction l with
+  | nil =>
+    induction k with
+    | zero => rfl
+    | succ k ih => simp only [List.nil_append] at ih; simp [List.replicate_succ, prod, ih]
+  | cons a t ih => simp only [List.cons_append, prod, ih]
+
+theorem dims_prod_toList (d : Dims) : d.prod = prod d.toList := by
+  simp [Dims.prod, Dims.toList, prod, Nat.mul_assoc]
+
+theorem setZooms_spec3 (h : MghHdr) (a b c : Nat) (hn : ndims h.dims = 3)
+    (hpos : ([a, b, c].take 3).any f32LeZero = false) :
+    setZooms h [a, b, c] = .ok { h with delta := [a, b, c] } := by
+  simp only [setZooms, List.length_cons, List.length_nil, hn, hpos]; simp
+
+theorem setZooms_spec4 (h : MghHdr) (a b c t : Nat) (hn : ndims h.dims = 4)
+    (hpos : ([a, b, c, t].take 3).any f32LeZero = false) (ht : f32LtZero t = false) :
+    setZooms h [a, b, c, t] = .ok { h with delta := [a, b, c], ftr := t :: h.ftr.drop 1 } := by
+  simp only [setZooms, List.length_cons, List.length_nil, hn, hpos, ht]; simp
+
+theorem codeOfDtype_lt (dt : String) (code : Nat) (h : codeOfDtype dt = some code) : code < 4294967296 := by
+  have key : ∀ e ∈ typeCodes, e.2.1 < 4294967296 := by decide
+  unfold codeOfDtype at h
+  cases hf : typeCodes.find? (fun e => e.1 == dt) with
+  | none => rw [hf] at h; cases h
+  | some e =>
+    rw [hf] at h
+    simp only [Option.map_some, Option.some.injEq] at h
+    rw [← h]
+    exact key e (List.mem_of_find?_eq_some hf)
+
+
+/-- TR recorded by `set_zooms` (0 when no 4th zoom was given) -/
+def trOf : Option (List Nat) → Nat
+  | some [_, _, _, t] => t
+  | _ => 0
+
+/-- what `get_zooms` must give: voxel sizes, and TR for a 4-D volume -/
+def zoomsSpec (aff : List Nat) (nd tr : Nat) : List Nat := aff ++ (if nd > 3 then [tr] else [])
+
+/-- `header.get_zooms()` before saving: what the caller set, or the defaults derived from the affine -/
+def hzSpec (setZ : Option (List Nat)) (aff : List Nat) (nd : Nat) : List Nat :=
+  match setZ with
+  | some zs => zs
+  | none => zoomsSpec aff nd 0
+
+theorem mghSaveLoadFrom_ok (sh : List Nat) (code bpv : Nat) (h1 : MghHdr) (data aff : List Nat) (ras : Bytes)
+    (sets : List (Nat × Nat)) (d : Dims) (tr : Nat)
+    (d1 : h1.dims = d) (c1 : h1.code = code) (f1 : h1.ftr = [tr, 0, 0, 0, 0]) (trb : tr < 4294967296)
+    (hgs : getDataShape d = sh) (hnd : ndims d = sh.length)
+    (hmem : ∀ n ∈ d.toList, 0 < n ∧ n < 4294967296)
+    (hcode : code < 4294967296) (hb : bytesPerVox code = some bpv)
+    (haff : aff.length = 3) (haffv : ∀ v ∈ aff, v < 4294967296)
+    (hras : ras.length = 48)
+    (hdata : data.length = d.prod) (hdat : ∀ v ∈ data, v < 256 ^ bpv)
+    (hsets : ∀ p ∈ sets, p.2 < 4294967296) :
+    mghSaveLoadFrom sh code h1 data aff ras sets = .ok
+      { hz := getZooms h1,
+        file := writeMgh ⟨d, code, aff, ftrSpec tr sets⟩ ras bpv data,
+        shape := sh, code := code,
+        zooms := zoomsSpec aff sh.length ((ftrSpec tr sets).headD 0),
+        ftr := ftrSpec tr sets, data := data, ras := ras } := by
+  have hnz : ¬ (d.x = 0 ∨ d.y = 0 ∨ d.z = 0 ∨ d.f = 0) := by
+    have h1 := hmem d.x (by simp [Dims.toList])
+    have h2 := hmem d.y (by simp [Dims.toList])
+    have h3 := hmem d.z (by simp [Dims.toList])
+    have h4 := hmem d.f (by simp [Dims.toList])
+    omega
+  have hfs := foldl_set_inv sets [tr, 0, 0, 0, 0] 5 rfl
+    (by intro v hv; simp only [List.mem_cons, List.not_mem_nil, or_false] at hv; rcases hv with rfl | rfl | rfl | rfl | rfl <;> omega)
+    hsets
+  have hrt := mgh_file_roundtrip_aux d.x d.y d.z d.f code aff (ftrSpec tr sets) ras bpv data hb hnz
+    (hmem d.x (by simp [Dims.toList])).2 (hmem d.y (by simp [Dims.toList])).2 (hmem d.z (by simp [Dims.toList])).2
+    (hmem d.f (by simp [Dims.toList])).2 hcode haff haffv hfs.1 hfs.2 hras hdata hdat
+  have hd : (⟨d.x, d.y, d.z, d.f⟩ : Dims) = d := rfl
+  rw [hd] at hrt
+  unfold mghSaveLoadFrom
+  simp only [setFtr_spec, d1, c1, f1, hgs, ne_eq, not_true_eq_false, if_false, hb]
+  unfold ftrSpec at hrt ⊢
+  rw [hrt.1]
+  simp only [getZooms, zoomsSpec, hnd, ftrTr, hgs]
+
+/-- **MGH save → load, end to end** (auxiliary form with the dims exposed) -/
+theorem mgh_save_load_aux (s : List Nat) (dt : String) (code bpv : Nat) (data aff : List Nat) (ras : Bytes)
+    (setZ : Option (List Nat)) (sets : List (Nat × Nat)) (d : Dims)
+    (hsd : setDataShape (imgShape s) = .ok d) (hgs : getDataShape d = imgShape s)
+    (hnd : ndims d = (imgShape s).length)
+    (hpos : ∀ n ∈ s, 0 < n ∧ n < 2147483648)
+    (hc : codeOfDtype dt = some code) (hb : bytesPerVox code = some bpv)
+    (haff : aff.length = 3) (haffv : ∀ v ∈ aff, v < 4294967296)
+    (hras : ras.length = 48)
+    (hdata : data.length = prod s) (hdat : ∀ v ∈ data, v < 256 ^ bpv)
+    (hz : ∀ zs, setZ = some zs → zs.length = (imgShape s).length ∧ (zs.take 3).any f32LeZero = false ∧
+            (∀ t, zs[3]? = some t → f32LtZero t = false) ∧ ∀ v ∈ zs, v < 4294967296)
+    (hsets : ∀ p ∈ sets, p.2 < 4294967296) :
+    mghSaveLoad s dt data aff ras setZ sets = .ok
+      { hz := hzSpec setZ aff (imgShape s).length,
+        file := writeMgh ⟨d, code, aff, ftrSpec (trOf setZ) sets⟩ ras bpv data,
+        shape := imgShape s, code := code,
+        zooms := zoomsSpec aff (imgShape s).length ((ftrSpec (trOf setZ) sets).headD 0),
+        ftr := ftrSpec (trOf setZ) sets, data := data, ras := ras } := by
+  have htl := setDataShape_toList _ _ hsd
+  have hmem : ∀ n ∈ d.toList, 0 < n ∧ n < 4294967296 := by
+    intro n hn
+    rw [htl, imgShape_eq] at hn
+    simp only [List.mem_append, List.mem_replicate] at hn
+    rcases hn with (hn | hn) | hn
+    · have := hpos n hn; omega
+    · omega
+    · omega
+  have hprod : d.prod = prod s := by
+    rw [dims_prod_toList, htl, prod_append_ones, imgShape_eq, prod_append_ones]
+  have hcode := codeOfDtype_lt dt code hc
+  have himg : (if s.length < 3 then padShape3 s else s) = imgShape s := rfl
+  unfold mghSaveLoad
+  simp only [himg, hc, hsd]
+  cases setZ with
+  | none =>
+    simp only []
+    rw [mghSaveLoadFrom_ok (imgShape s) code bpv _ data aff ras sets d 0 rfl rfl rfl (by decide) hgs hnd hmem hcode hb
+      haff haffv hras (by rw [hdata, hprod]) hdat hsets]
+    simp [hzSpec, trOf, getZooms, zoomsSpec, hnd, ftrTr]
+  | some zs =>
+    obtain ⟨z1, z2, z3, z4⟩ := hz zs rfl
+    have hnd' : ndims d = 3 ∨ ndims d = 4 := by unfold ndims; split <;> simp
+    simp only []
+    rcases hnd' with h3 | h4
+    · have hl3 : zs.length = 3 := by omega
+      match zs, hl3 with
+      | [a, b, c], _ =>
+        rw [setZooms_spec3 _ a b c h3 z2]
+        simp only []
+        rw [mghSaveLoadFrom_ok (imgShape s) code bpv _ data aff ras sets d 0 rfl rfl rfl (by decide) hgs hnd hmem hcode hb
+          haff haffv hras (by rw [hdata, hprod]) hdat hsets]
+        simp [hzSpec, trOf, getZooms, h3]
+    · have hl4 : zs.length = 4 := by omega
+      match zs, hl4 with
+      | [a, b, c, t], _ =>
+        rw [setZooms_spec4 _ a b c t h4 z2 (z3 t rfl)]
+        simp only []
+        rw [mghSaveLoadFrom_ok (imgShape s) code bpv _ data aff ras sets d t rfl rfl rfl (z4 t (by simp)) hgs hnd hmem hcode hb
+          haff haffv hras (by rw [hdata, hprod]) hdat hsets]
+        simp [hzSpec, trOf, getZooms, h4, ftrTr]
 
 end Nb.C19
